@@ -235,9 +235,11 @@ func TestC14(t *testing.T) {
 
 	lines := make([]string, len(trees))
 	impl := make([]string, len(trees))
+	single := make([]string, len(trees)) // what a call of its own reports for tree i
 	for i, tr := range trees {
 		lines[i] = "c14 " + tr.line()
 		_, err := loc.Client.Call(ctx, "e", []int{i})
+		single[i] = describeClientErr(err)
 		// the other entry points report the same error: CallResult, and a Batch entry's Error()
 		var ignored any
 		err2 := loc.Client.CallResult(ctx, "e", []int{i}, &ignored)
@@ -298,6 +300,44 @@ func TestC14(t *testing.T) {
 				}
 			}
 		}
+	}
+
+	// ---- the same errors as members of ONE batch: each member must report what it reports alone
+	// (its own code, message and data - not a neighbour's)
+	for start := 0; start+1 < len(trees) && start < pick(1500, 20000); {
+		k := 2 + rng.Intn(5)
+		if start+k > len(trees) {
+			k = len(trees) - start
+		}
+		specs := make([]jrpc2.Spec, k)
+		for j := range specs {
+			specs[j] = jrpc2.Spec{Method: "e", Params: []int{start + j}}
+		}
+		rsps, berr := loc.Client.Batch(ctx, specs)
+		if berr != nil || len(rsps) != k {
+			res.Violatef("batch of failing calls not answered", trees[start], "trees %d..%d: %d responses, err %v", start, start+k-1, len(rsps), berr)
+		} else {
+			for j, rsp := range rsps {
+				var got error
+				if e := rsp.Error(); e != nil {
+					got = e
+				}
+				g := describeClientErr(got)
+				// Batch reports the wire error as it is; Call maps the two cancellation codes to the sentinels
+				w := single[start+j]
+				if e := rsp.Error(); e != nil && (w == "canceled" || w == "deadline") {
+					if !(w == "canceled" && e.Code == jrpc2.Cancelled || w == "deadline" && e.Code == jrpc2.DeadlineExceeded) {
+						res.Violatef("a batch member reports another error than the same call alone", trees[start+j], "tree %s as member %d of a batch of %d: alone %s, in the batch %s", trees[start+j].line(), j, k, w, g)
+					}
+					continue
+				}
+				if g != w {
+					res.Violatef("a batch member reports another error than the same call alone", trees[start+j], "tree %s as member %d of a batch of %d: alone %s, in the batch %s", trees[start+j].line(), j, k, w, g)
+				}
+			}
+		}
+		res.Case(fmt.Sprintf("batch/%d", k), true, k)
+		start += k
 	}
 
 	// model correspondence
